@@ -175,4 +175,5 @@ func (cx *c20Ctx) pathEP(fi *FuncInfo, tab *c20Table) {
 		}
 	}
 	r.OK(c, pos, "URL evaluates on all %d request path(s) to `%s` with %s — equal to the table entry (%s)", len(paths), got, c20ParamList(sig, ep), ep.Doc)
+	cx.fidelityEP(fi, ep, sym)
 }
